@@ -72,8 +72,11 @@ class _Task(DebugContents, Logging):
             raise RuntimeError("schedule missing, use zero for 'now'")
         self.taskTime = when
 
-        # pass along to the task manager
+        # pass along to the task manager, until there is one the task is
+        # listed once: installing it again moves it to the end of the list
         if not _task_manager:
+            if self in _unscheduled_tasks:
+                _unscheduled_tasks.remove(self)
             _unscheduled_tasks.append(self)
         else:
             _task_manager.install_task(self)
@@ -84,9 +87,11 @@ class _Task(DebugContents, Logging):
     def suspend_task(self):
         global _task_manager
 
-        # pass along to the task manager
+        # pass along to the task manager, a task that is not scheduled is
+        # left alone like the task manager does
         if not _task_manager:
-            _unscheduled_tasks.remove(self)
+            if self in _unscheduled_tasks:
+                _unscheduled_tasks.remove(self)
         else:
             _task_manager.suspend_task(self)
 
@@ -194,6 +199,8 @@ class RecurringTask(_Task):
         # if there is no task manager, postpone the install
         if not _task_manager:
             if _debug: RecurringTask._debug("    - no task manager")
+            if self in _unscheduled_tasks:
+                _unscheduled_tasks.remove(self)
             _unscheduled_tasks.append(self)
 
         else:
